@@ -2,7 +2,7 @@
 # seed_store.py <ID> <slug> "<needs>" "<caught by>" "<demo command>"  - archive a confirmed seeded change under /verif/seeded/
 import sys, os, shutil, json, subprocess
 pid, slug, needs, caught, democmd = sys.argv[1:6]
-src = '/tmp/mutants/%s' % pid
+src = os.environ.get("MUTDIR","/tmp/mutants") + "/%s" % pid
 dst = '/verif/seeded/%s-%s' % (pid, slug)
 os.makedirs(dst, exist_ok=True)
 for f in os.listdir(src):
